@@ -16,20 +16,33 @@ def targetOf (t : Tree) (vis : Nat → String → Bool) (name : String) : Option
   (ix.find? (fun p => p.2.2.2.1.name = name && !p.2.2.2.1.skip && vis p.2.2.1 name)).map
     (fun p => (pathKey p.2.1 p.2.2.2.1.name, p.1, p.2.2.2.2))
 
+/-- encoding/json's reading of a tag: the key is the text before the first comma; `omitempty` leaves an empty value out -/
+def tagName (k : String) : String := (k.splitOn ",").headD ""
+def tagOpts (k : String) : List String := (k.splitOn ",").drop 1
+def omitEmpty (k : String) : Bool := (tagOpts k).contains "omitempty"
+
 def jsonLines (t : Tree) (vis : Nat → String → Bool) (ks : List JKey) (dockeys : List String) (mirrorPanic : Bool) :
     List (String × String) :=
-  let sorted := sortStrs (ks.map (·.key))
-  let mline := sorted.map (fun key =>
-    match ks.find? (·.key = key) with
-    | some k => key ++ "=" ++ (if k.exported || k.hasGet then
+  let sorted := sortStrs (ks.map (fun k => tagName k.key))
+  -- a key whose value is empty is left out under `,omitempty` (the filled value has no empty leaf: only "zero" is empty)
+  -- (a struct value is never "empty" for encoding/json; `Inner` is the one struct type of the field-type palette)
+  let structTyped (name : String) : Bool :=
+    match (leavesPtr [] false 0 t).find? (fun l => l.2.2.1.name = name && !l.2.2.1.skip && vis l.2.1 name) with
+    | some l => l.2.2.1.ptype == "Inner"
+    | none => false
+  let keep (k : JKey) (v : String) : Option String :=
+    if omitEmpty k.key && v == "zero" && !structTyped k.name then none else some (tagName k.key ++ "=" ++ v)
+  let mline := sorted.filterMap (fun key =>
+    match ks.find? (fun k => tagName k.key = key) with
+    | some k => keep k (if k.exported || k.hasGet then
         (match targetOf t vis k.name with | some (_, i, _) => s!"arg{i}" | none => "?") else "zero")
-    | none => key ++ "=?")
+    | none => some (key ++ "=?"))
   let ls := leavesPtr [] false 0 t
   let uline := ls.map (fun l =>
     let p := pathKey l.1 l.2.2.1.name
     let hit := ks.find? (fun k => (k.exported || k.hasSet) && (targetOf t vis k.name).map (·.1) = some p)
     p ++ "=" ++ (match hit with
-      | some k => (match idx dockeys k.key with | some j => s!"arg{j}" | none => "zero")
+      | some k => (match idx dockeys (tagName k.key) with | some j => s!"arg{j}" | none => "zero")
       | none => "zero"))
   -- one embedded pointer nil, the rest filled: MarshalJSON's guard of a field names exactly the pointer embeds on ITS way
   let lps := leavesPtrs [] [] 0 t
@@ -39,16 +52,18 @@ def jsonLines (t : Tree) (vis : Nat → String → Bool) (ks : List JKey) (docke
     | none => []
   let pembeds := ((lps.map (·.2.2.2.2)).flatten).eraseDups
   let mparts := pembeds.map (fun P =>
-    ("mpart:" ++ ".".intercalate P, ";".intercalate (sorted.map (fun key =>
-      match ks.find? (·.key = key) with
-      | some k => key ++ "=" ++ (if k.exported || k.hasGet then
+    ("mpart:" ++ ".".intercalate P, ";".intercalate (sorted.filterMap (fun key =>
+      match ks.find? (fun k => tagName k.key = key) with
+      | some k => keep k (if k.exported || k.hasGet then
           (match targetOf t vis k.name with
            | some (_, i, _) => if (ptrsOf k.name).contains P then "zero" else s!"arg{i}"
            | none => "?") else "zero")
-      | none => key ++ "=?"))))
+      | none => some (key ++ "=?")))))
   -- f531104: UnmarshalJSON allocates, MarshalJSON tests, the embedded pointer structs on the way: no panic any more
   let nilPanic := mirrorPanic && false
-  [("keys", " ".intercalate sorted), ("marshal", ";".intercalate mline), ("um", ";".intercalate uline),
+  -- the keys of the marshalled object: those not left out
+  let present := mline.map (fun kv => (kv.splitOn "=").headD "")
+  [("keys", " ".intercalate present), ("marshal", ";".intercalate mline), ("um", ";".intercalate uline),
    ("umnil", if nilPanic then "panic" else "ok"), ("mnil", "ok")] ++ mparts
 
 /-- `(json (getset b) (tagcase c) (typedoc …) (facts …) (dockeys k…) (tree M…))` -/
@@ -86,8 +101,10 @@ def jsonCase (id : String) (payload : List Sexp) : List String :=
       let sk := specKeys getset tc doc sG sS t
       let visM : Nat → String → Bool := fun d n => !genShadow t d n
       let visS : Nat → String → Bool := fun d n => !goShadowed t d n
-      let badTag := sk.any (fun k => k.key = "-" || k.key.contains ',' || k.key = "")
-      let dupKeys := !(sk.map (·.key)).Nodup || !(sk.map (fun k => Transfer.pascalS k.name)).Nodup
+      -- tag options other than `omitempty` (`string`, unknown ones) change the encoding itself -> Out
+      let badTag := sk.any (fun k => tagName k.key = "-" || tagName k.key = "" ||
+        (tagOpts k.key).any (fun o => o != "omitempty"))
+      let dupKeys := !(sk.map (fun k => tagName k.key)).Nodup || !(sk.map (fun k => Transfer.pascalS k.name)).Nodup
       let clashC03 := (getsetLines t [] [] none none).isEmpty  -- placeholder (never true)
       let sg := (specGetFields doc t).map (fun n => Transfer.pascalS n)
       let ss := (specSetFields doc t).map (fun n => "Set" ++ Transfer.pascalS n)
@@ -111,8 +128,9 @@ def jsonCase (id : String) (payload : List Sexp) : List String :=
         if Ctor.region t != "WF" || !wfOnce t || badTag || dupKeys || clash || clashC03 || exportedUnderscore || skippedExported then "Out"
         else "WF"
       let aux := [("needjson", toString (needJSON getset tc sw promG promS fs))]
-      let tgt := sk.map (fun k => ("target:" ++ k.key, match targetOf t visS k.name with | some (p, _, _) => p | none => "?"))
-      both id (jsonLines t visM mk dockeys true ++ aux) (jsonLines t visS sk dockeys false ++ tgt) reg
+      let tgt := sk.map (fun k => ("target:" ++ tagName k.key, match targetOf t visS k.name with | some (p, _, _) => p | none => "?"))
+      let allk := [("allkeys", " ".intercalate (sortStrs (sk.map (fun k => tagName k.key))))]
+      both id (jsonLines t visM mk dockeys true ++ aux) (jsonLines t visS sk dockeys false ++ tgt ++ allk) reg
     | none => err id "bad-tree"
   | _ => err id "bad-json-case"
 
